@@ -332,6 +332,11 @@ class Interp:
             for p in path:
                 self.calls.append(("path", p[1], e.lineno))
             return contract_path(self.tn, path, ops)
+        if isinstance(e.func, ast.Attribute) and e.func.attr == "get" and 1 <= len(e.args) <= 2:
+            d = self.ev(e.func.value)
+            if isinstance(d, dict):
+                k = self.ev(e.args[0])
+                return d.get(k, self.ev(e.args[1]) if len(e.args) == 2 else None)
         if f in self.funcs:
             return self.funcs[f](self, e)
         if short in ("debug", "info", "warning"):
